@@ -135,6 +135,21 @@ def convert_guard(tree):
     raise Unsupported("convert_format not found")
 
 
+def sector_facts(tree):
+    """(guard of _add_sector is `'sector' not in net`, prelude of convert_format recognised)"""
+    guard = prelude = False
+    for node in tree.body:
+        if isinstance(node, ast.FunctionDef) and node.name == "_add_sector":
+            body = [b for b in node.body if not (isinstance(b, ast.Expr) and isinstance(b.value, ast.Constant))]
+            guard = len(body) == 1 and isinstance(body[0], ast.If) and not body[0].orelse and \
+                ast.unparse(body[0].test) == "'sector' not in net" and \
+                [ast.unparse(x) for x in body[0].body] == ["net['sector'] = Sector.ALL"]
+        if isinstance(node, ast.FunctionDef) and node.name == "convert_format":
+            body = [b for b in node.body if not (isinstance(b, ast.Expr) and isinstance(b.value, ast.Constant))]
+            prelude = [ast.unparse(x) for x in body[:2]] == ["_add_sector(net)", "add_default_components(net, overwrite=False)"]
+    return guard, prelude
+
+
 def file_io_facts(tree):
     src = ast.unparse(tree)
     need = ["json.dumps(net, cls=PPJSONEncoder", "isinstance_func=isinstance_partial",
@@ -151,6 +166,7 @@ def generate():
     classes, entries, excludes, extra = fluid_classes(_parse("properties/fluids.py"))
     convert_guard(_parse("io/convert_format.py"))
     file_io_facts(_parse("io/file_io.py"))
+    guard, prelude = sector_facts(_parse("io/convert_format.py"))
     lines = ["(* GENERATED by tools/translate/codecfacts.py from pandapipes/io/*.py, properties/fluids.py - do not edit *)",
              "From Coq Require Import String List Bool.", "Import ListNotations.", "Open Scope string_scope.", "",
              "Definition key_filter_prefixes : list string := %s." % clist([cstr(p) for _, p in kf]),
@@ -160,6 +176,8 @@ def generate():
              "Definition poly_fields : list string := %s." % clist([cstr(x) for x in extra["poly_fields"]]),
              "Definition poly_excludes : list string := %s." % clist([cstr(x) for x in extra["poly_excludes"]]),
              "Definition inter_fill_none_codec : bool := %s." % cbool(extra["fill_none_codec"]),
+             "Definition sector_guard_key_presence : bool := %s." % cbool(guard),
+             "Definition convert_prelude_recognised : bool := %s." % cbool(prelude),
              "Definition registry_names : list string := %s." % clist([cstr(n) for n, _, _ in reg]),
              "(* class, overrides to_dict, overrides from_dict *)",
              "Definition fluid_classes : list (string * bool * bool) := %s." %
